@@ -81,6 +81,20 @@ fn other_sinks(script: &[u32], st: &mut Stats, write: &dyn Fn(&mut dyn std::io::
     res
 }
 
+/// A write that fails half-way (the sink returns an error at its k-th call) must leave nothing
+/// behind: whatever is written next on this thread has to come out as if nothing had happened.
+/// Returns false if the failing sink did not make the write fail (nothing to learn then).
+fn failed_write_first(k: usize, st: &mut Stats, write: &dyn Fn(&mut dyn std::io::Write) -> std::io::Result<()>) -> bool {
+    let kind = [std::io::ErrorKind::BrokenPipe, std::io::ErrorKind::WriteZero, std::io::ErrorKind::Other, std::io::ErrorKind::WouldBlock][k % 4];
+    let mut bad = SimSink::new(&[3], Some((k, kind)));
+    let r = vcore::catch(|| write(&mut bad));
+    let failed = matches!(r, Ok(Err(_)));
+    if failed {
+        st.count("fault.sink_error", 1);
+    }
+    failed
+}
+
 fn sink_stats(s: &SimSink, st: &mut Stats) {
     st.count("fault.sink_short_write", s.short_writes as u64);
     st.count("fault.sink_interrupted", s.interrupts as u64);
@@ -128,14 +142,16 @@ pub const C10_ENTRIES: &[&str] = &[
     "write_head+write_wrap_seq_iter(filter)",
     "RefRecord(CRLF source)::write",
     "RefRecord(CRLF source)::write_wrap",
+    "RefRecord(mixed LF/CRLF source)::write",
+    "RefRecord(mixed LF/CRLF source)::write_wrap",
 ];
 
 fn entry_wrapped(e: u8) -> bool {
-    matches!(e, 2 | 4 | 6 | 8 | 10 | 11 | 13 | 15)
+    matches!(e, 2 | 4 | 6 | 8 | 10 | 11 | 13 | 15 | 17)
 }
 
 fn entry_chunked(e: u8) -> bool {
-    matches!(e, 5 | 6 | 9 | 10 | 11 | 12 | 13 | 14 | 15)
+    matches!(e, 5 | 6 | 9 | 10 | 11 | 12 | 13 | 14 | 15 | 16 | 17)
 }
 
 /// write one record through entry point `e` into `w`
@@ -166,19 +182,26 @@ fn write_c10<W: std::io::Write>(r: &WRec, e: u8, w: &mut W) -> std::io::Result<(
         }
         7 => fasta::OwnedRecord { head: r.head.clone(), seq: r.seq.clone() }.write(&mut *w),
         8 => fasta::OwnedRecord { head: r.head.clone(), seq: r.seq.clone() }.write_wrap(&mut *w, width),
-        9 | 10 | 14 | 15 => {
-            // a RefRecord whose sequence lines are the chunks (LF or CRLF source text)
-            let t: &[u8] = if e >= 14 { b"\r\n" } else { b"\n" };
+        9 | 10 | 14 | 15 | 16 | 17 => {
+            // a RefRecord whose sequence lines are the chunks (LF, CRLF, or per-line mixed source text)
+            let term = |k: usize| -> &'static [u8] {
+                match e {
+                    14 | 15 => b"\r\n",
+                    // the pattern of terminators is a function of the record
+                    16 | 17 => if (r.width + r.head.len() + k * (1 + r.cuts.len())) % 3 == 1 { b"\r\n" } else { b"\n" },
+                    _ => b"\n",
+                }
+            };
             let mut src = vec![b'>'];
             src.extend_from_slice(&r.head);
-            src.extend_from_slice(t);
-            for c in &chunks {
+            src.extend_from_slice(term(0));
+            for (k, c) in chunks.iter().enumerate() {
                 src.extend_from_slice(c);
-                src.extend_from_slice(t);
+                src.extend_from_slice(term(k + 1));
             }
             let mut rd = fasta::Reader::new(&src[..]);
             let rec = rd.next().expect("source record").expect("valid source record");
-            if e == 9 || e == 14 {
+            if e == 9 || e == 14 || e == 16 {
                 rec.write(&mut *w)
             } else {
                 rec.write_wrap(&mut *w, width)
@@ -246,7 +269,7 @@ pub fn gen_c10(rng: &Rng, tier: Tier) -> C10Scn {
             }
             _ => rng.range(1, 20),
         };
-        let mut cuts = vec![];
+        let mut cuts: Vec<usize> = vec![];
         for _ in 0..rng.small(5) {
             let c = if rng.chance(1, 3) && width > 0 {
                 // exactly at a line end
@@ -258,6 +281,11 @@ pub fn gen_c10(rng: &Rng, tier: Tier) -> C10Scn {
             if rng.chance(1, 4) {
                 cuts.push(c); // empty chunk
             }
+        }
+        if rng.chance(1, 8) && width > 0 && seq.len() / width < 200 {
+            // a source that is already laid out at the requested width (or at width +- 1)
+            let w = (width as i64 + *rng.pick(&[0i64, 0, 0, 1, -1])).max(1) as usize;
+            cuts = (1..=seq.len() / w).map(|k| k * w).collect();
         }
         recs.push(WRec { head: gen_head(rng, 14, true), seq, cuts, entry: rng.below(C10_ENTRIES.len() as u64) as u8, width });
     }
@@ -278,6 +306,14 @@ pub fn run_c10(s: &C10Scn, st: &mut Stats) -> RunResult {
     for (i, r) in s.recs.iter().enumerate() {
         let e = r.entry % C10_ENTRIES.len() as u8;
         st.count(&format!("op.{}", C10_ENTRIES[e as usize]), 1);
+        if (s.sink_script.len() + i) % 3 == 0 {
+            // (one record in three: the same record, or the previous one, into a sink that fails)
+            let rr = if i > 0 && s.sink_script.len() % 2 == 0 { &s.recs[i - 1] } else { r };
+            let ee = rr.entry % C10_ENTRIES.len() as u8;
+            if failed_write_first(s.sink_script.iter().map(|x| *x as usize).sum::<usize>() % 7, st, &|w: &mut dyn std::io::Write| { let mut w = w; write_c10(rr, ee, &mut w) }) {
+                st.probe("probe.write_after_failed_write");
+            }
+        }
         let mut plain = SimSink::new(&[], None);
         let mut scripted = SimSink::new(&s.sink_script, None);
         let r1 = vcore::catch(|| write_c10(r, e, &mut plain));
@@ -586,6 +622,13 @@ pub fn run_c11(s: &C11Scn, st: &mut Stats) -> RunResult {
         for (i, r) in recs.iter().enumerate() {
             let e = r.entry % 4;
             st.count(&format!("op.{}", C11_ENTRIES[e as usize]), 1);
+            if (script.len() + i) % 3 == 0 {
+                let rr = if i > 0 && script.len() % 2 == 0 { &recs[i - 1] } else { r };
+                let ee = rr.entry % 4;
+                if failed_write_first(script.iter().map(|x| *x as usize).sum::<usize>() % 7, st, &|w: &mut dyn std::io::Write| { let mut w = w; write_c11(rr, ee, &mut w) }) {
+                    st.probe("probe.write_after_failed_write");
+                }
+            }
             let mut plain = SimSink::new(&[], None);
             let mut scripted = SimSink::new(script, None);
             let r1 = vcore::catch(|| write_c11(r, e, &mut plain));
@@ -811,6 +854,19 @@ pub struct C18Scn {
     /// take turns filling the same record set (a pooled / reused set)
     #[serde(default)]
     pub second_cap: Option<usize>,
+    /// with `sets` and set_mode 0: fill the set through `seq_io::parallel::Reader::fill_data` (what
+    /// the parallel functions and ReusableReader call) instead of `read_record_set`
+    #[serde(default)]
+    pub via_fill_data: bool,
+    /// FASTA: every `many_every`-th record (if > 0) has `many_lines` sequence lines of one character
+    /// (records that are "no larger" in bytes, but with a much longer line index)
+    #[serde(default)]
+    pub many_every: usize,
+    #[serde(default)]
+    pub many_lines: usize,
+    /// FASTQ: the sequence line ends in CRLF, the quality line in LF (terminators mixed inside a record)
+    #[serde(default)]
+    pub mixed_term: bool,
     pub warm: usize,
     pub window: usize,
 }
@@ -821,6 +877,13 @@ fn c18_record(s: &C18Scn, i: usize) -> Vec<u8> {
         z.small_every = 0;
         z.small_at = None;
         z.line_len = s.small_len;
+        return c18_record(&z, i);
+    }
+    if s.many_every > 0 && s.fmt == Fmt::Fasta && i % s.many_every == s.many_every - 1 {
+        let mut z = s.clone();
+        z.many_every = 0;
+        z.n_lines = s.many_lines;
+        z.line_len = 1;
         return c18_record(&z, i);
     }
     let t: &[u8] = if s.crlf { b"\r\n" } else { b"\n" };
@@ -841,11 +904,11 @@ fn c18_record(s: &C18Scn, i: usize) -> Vec<u8> {
             v.extend_from_slice(id.as_bytes());
             v.extend_from_slice(t);
             v.extend(std::iter::repeat(b"ACGT"[i % 4]).take(s.line_len));
-            v.extend_from_slice(t);
+            v.extend_from_slice(if s.mixed_term { b"\r\n" } else { t });
             v.push(b'+');
             v.extend_from_slice(t);
             v.extend(std::iter::repeat(b'I').take(s.line_len));
-            v.extend_from_slice(t);
+            v.extend_from_slice(if s.mixed_term { b"\n" } else { t });
         }
     }
     v
@@ -871,6 +934,10 @@ pub fn gen_c18(rng: &Rng, tier: Tier) -> C18Scn {
         small_len: 0,
         small_at: None,
         second_cap: None,
+        via_fill_data: false,
+        many_every: 0,
+        many_lines: 0,
+        mixed_term: false,
         warm: rng.range(4, 40),
         window: match tier {
             Tier::Quick => rng.range(50, 400),
@@ -909,6 +976,24 @@ pub fn gen_c18(rng: &Rng, tier: Tier) -> C18Scn {
         s.cap = if rng.chance(1, 2) { 65536.max(rl + 10) } else { rl * rng.range(1, 3) + rng.range(2, rl) };
         return s;
     }
+    if fmt == Fmt::Fasta && rng.chance(1, 300) {
+        // long runs of records with few lines, and every 65th..100th one with more than a thousand
+        // lines (idle counters, hysteresis on the size of the line index); the warm-up spans two
+        // cycles, the window at least two more
+        s.n_lines = rng.range(0, 3);
+        s.line_len = rng.range(1, 30);
+        s.many_every = rng.range(65, 100);
+        s.many_lines = *rng.pick(&[rng.range(1025, 1100), rng.range(1100, 2100)]);
+        s.head_len = rng.range(1, 4);
+        s.warm = 2 * s.many_every + rng.range(1, 10);
+        s.window = 2 * s.many_every + rng.range(5, 80);
+        s.script = if rng.chance(1, 2) { vec![] } else { vec![rng.range(300, 5000) as u32] };
+        s.sets = rng.chance(1, 2);
+        s.set_mode = 1;
+        let big = c18_record(&s, s.many_every - 1).len();
+        s.cap = if rng.chance(1, 2) { 65536.max(big + 10) } else { 2 * big + rng.range(2, big) };
+        return s;
+    }
     // capacity >= 2 records so that growth is never needed after the first fill
     let per_buf = rng.range(2, 6);
     s.cap = (rl * per_buf + rng.range(1, rl)).max(3);
@@ -916,12 +1001,65 @@ pub fn gen_c18(rng: &Rng, tier: Tier) -> C18Scn {
     if !s.sets || s.set_mode == 1 {
         s.warm = s.warm.max(2 * per_buf + 3);
     }
+    if fmt == Fmt::Fastq && rng.chance(1, 8) {
+        s.mixed_term = true;
+    }
+    if s.sets && s.set_mode == 0 && rng.chance(1, 6) {
+        s.via_fill_data = true;
+    }
     if s.sets && s.set_mode < 2 && rng.chance(1, 6) {
         s.second_cap = Some(s.cap * rng.range(2, 12) + rng.range(0, 7));
         s.warm = 2 * s.warm + 4;
         s.window = s.window.min(80);
     }
     s
+}
+
+/// `fill_data` of `seq_io::parallel::Reader` (implemented for both readers, with the built-in
+/// policy: the trait wants a `Send` policy, which the recording one is not): the entry point through
+/// which the parallel functions and `ReusableReader` refill their recycled record sets.
+fn c18_fill_data_window(s: &C18Scn, input: Rc<Vec<u8>>, cfg: &Cfg) -> Result<(u64, usize), String> {
+    let seam = new_seam(0);
+    let src = SimSource::new(input, cfg, seam);
+    macro_rules! go {
+        ($module:ident) => {{
+            use seq_io::parallel::Reader as ParReader;
+            let mut rd = $module::Reader::with_capacity(src, s.cap);
+            let mut set = $module::RecordSet::default();
+            let mut max_batch = 0;
+            let mut sum = 0usize;
+            let mut step = |rd: &mut $module::Reader<SimSource>, set: &mut $module::RecordSet| -> usize {
+                rd.fill_data(set).expect("enough input").expect("valid input");
+                for r in &*set {
+                    use $module::Record;
+                    sum += r.head().len();
+                }
+                set.len()
+            };
+            for _ in 0..s.warm.max(6) {
+                max_batch = max_batch.max(step(&mut rd, &mut set));
+            }
+            alloc::arm();
+            let mut done = 0;
+            while done < s.window {
+                let k = step(&mut rd, &mut set);
+                if k > max_batch {
+                    max_batch = k;
+                    alloc::disarm();
+                    alloc::arm();
+                }
+                done += 1;
+            }
+            let n = alloc::disarm();
+            (n, done)
+        }};
+    }
+    let r = vcore::catch(|| match s.fmt {
+        Fmt::Fasta => go!(fasta),
+        Fmt::Fastq => go!(fastq),
+    });
+    alloc::disarm();
+    r
 }
 
 pub fn run_c18(s: &C18Scn, st: &mut Stats) -> RunResult {
@@ -934,6 +1072,22 @@ pub fn run_c18(s: &C18Scn, st: &mut Stats) -> RunResult {
         input.extend_from_slice(&c18_record(s, i));
     }
     let cfg = Cfg { cap: s.cap, policy: PolicySpec::Std, script: s.script.clone(), cuts: vec![], faults: vec![], intr_burst: None, lift: None, pause: None };
+    if s.via_fill_data && s.sets && s.set_mode == 0 {
+        st.probe("probe.set_filled_through_parallel_fill_data");
+        match c18_fill_data_window(s, Rc::new(input), &cfg) {
+            Err(m) => v.push(Violation::new("C18.harness_or_panic", format!("fill_data scenario did not run to the end of the window: {}", m))),
+            Ok((allocs, calls)) => {
+                st.count("step.window_calls_measured", calls as u64);
+                if allocs != 0 {
+                    v.push(Violation::new("C18.allocation_in_steady_state", format!("{} heap allocation(s) during {} steady-state parallel::Reader::fill_data calls into one reused record set after a warm-up of {} (records of {} bytes, capacity {})", allocs, calls, s.warm.max(6), c18_record(s, 0).len(), s.cap)));
+                }
+            }
+        }
+        let h = hash_bytes(&serde_json::to_vec(s).unwrap_or_default());
+        st.set_insert("nontrivial", h);
+        st.count("op.mode.fill_data", 1);
+        return RunResult { violations: v, log_hash: h };
+    }
     let seam = new_seam(0);
     let input = Rc::new(input);
     let src = SimSource::new(input.clone(), &cfg, seam.clone());
